@@ -167,6 +167,9 @@ static bool run_list(wcall *calls, int n, const vbuf *full, size_t cap, int form
             size_t huge = c->op == W_RAW_HUGE ? (size_t)0 - (size_t)(1 + c->i % 7) : (size_t)INT32_MAX + 1 + (size_t)(c->i % 1000);
             bool r2 = c->op == W_RAW_HUGE ? binson_write_raw(w, one, huge) : ((c->i & 1) ? binson_write_bytes(w, one, huge) : binson_write_string_with_len(w, (const char *)one, huge));
             vg_free(one, 1);
+            size_t cnt_now = binson_writer_get_counter(w);
+            size_t cnt_want = counter + huge + (c->op == W_BYTES_HUGE ? 9 : 0);      /* the counter keeps counting: 9-byte length prefix + the claimed payload */
+            if (ok && cnt_now != cnt_want) { snprintf(sig, sizeof sig, "%s:counter:%s", sigp, WNAME[c->op]); snprintf(what, sizeof what, "call %d (%s, length %zu): the counter went from %zu to %zu, the encoded size of the call is %zu", i, WNAME[c->op], huge, counter, cnt_now, cnt_want - counter); ok = false; }
             if (r2 || w->error_flags == BINSON_ERROR_NONE) { snprintf(sig, sizeof sig, "%s:huge-length-accepted:%s", sigp, WNAME[c->op]); snprintf(what, sizeof what, "call %d (%s, length %zu) returned %d with error_flags=%s", i, WNAME[c->op], huge, r2, verr_name((int)w->error_flags)); ok = false; }
             if (ok && stored && memcmp(dst, full->p, stored) != 0) { snprintf(sig, sizeof sig, "%s:prefix-damaged", sigp); snprintf(what, sizeof what, "the stored prefix was damaged by a write with an impossible length"); ok = false; }
             for (size_t k = stored; ok && k < cap; k++) if (dst[k] != 0xA7) { snprintf(sig, sizeof sig, "%s:store-after-failure", sigp); snprintf(what, sizeof what, "byte %zu was modified by a write with an impossible length", k); ok = false; }
